@@ -1,0 +1,24 @@
+//go:build verif
+
+package polling
+
+import (
+	"time"
+
+	"github.com/karagenc/socket.io-go/engine.io/parser"
+)
+
+// VerifPollQueue exposes the unexported poll queue to the verification harness.
+type VerifPollQueue struct{ pq *pollQueue }
+
+func VerifNewPollQueue() *VerifPollQueue { return &VerifPollQueue{pq: newPollQueue()} }
+
+func (q *VerifPollQueue) Key() any                              { return q.pq }
+func (q *VerifPollQueue) Add(packets ...*parser.Packet)         { q.pq.add(packets...) }
+func (q *VerifPollQueue) Get() []*parser.Packet                 { return q.pq.get() }
+func (q *VerifPollQueue) Len() int                              { return q.pq.len() }
+func (q *VerifPollQueue) Poll(d time.Duration) []*parser.Packet { return q.pq.poll(d) }
+
+// VerifQueueKey returns the hook key of a server transport's poll queue.
+func (t *ServerTransport) VerifQueueKey() any { return t.pq }
+func (t *ServerTransport) VerifQueueLen() int { return t.pq.len() }
